@@ -386,7 +386,9 @@ def container_fields(cls):
     """field shapes of a built-in container heap class"""
     info = CONTAINERS[cls]
     if info[0] == 'list':
-        return {'len': IntS, 'items': MapS(IntS, info[1])}
+        # cnt: ghost multiset view (number of occurrences of each value), kept
+        # in step with items by every list operation of the encoding
+        return {'len': IntS, 'items': MapS(IntS, info[1]), 'cnt': MapS(info[1], IntS)}
     if info[0] == 'dict':
         return {'has': MapS(info[1], BoolS), 'val': MapS(info[1], info[2]),
                 'size': IntS}
